@@ -49,13 +49,16 @@ type Prog struct {
 	ssa     *ssaState
 	initial []*packages.Package
 
-	neverNilFn map[*Func]bool
-	helperOf   map[*Func]*helperSite
-	wrapCache  map[*Func][]ast.Expr
-	alias      map[*types.Func]string // renamed unexported functions: object -> baseline canonical name
-	renamed    map[string]string      // baseline name -> current name
-	inWalk     map[*Func]bool
-	holdsState *State // state of the Holds query in progress (for pruning join alternatives)
+	neverNilFn    map[*Func]bool
+	helperOf      map[*Func]*helperSite
+	wrapCache     map[*Func][]ast.Expr
+	baselineKnown map[string]bool   // unexported function names of the tree the rules were written for
+	sharedHelpers map[*Func][]*Func // caller -> private helpers with several call sites it calls
+	predCache     map[*Func]*predSummary
+	alias         map[*types.Func]string // renamed unexported functions: object -> baseline canonical name
+	renamed       map[string]string      // baseline name -> current name
+	inWalk        map[*Func]bool
+	holdsState    *State // state of the Holds query in progress (for pruning join alternatives)
 }
 
 func loadProg(dir string) (*Prog, error) {
